@@ -7,6 +7,9 @@
  *           Z<hex>[!k]        json_object_new_string(bytes ++ NUL)
  *   step    l<hex>,<len>[!k]  json_object_set_string_len(o, bytes, len)
  *           z<hex>[!k]        json_object_set_string(o, bytes ++ NUL)
+ *           o<off>,<len>[!k]  json_object_set_string_len(o, json_object_get_string(o) + off, len)
+ *           s<off>[!k]        json_object_set_string(o, json_object_get_string(o) + off)
+ *                             (the source is the node's own current buffer)
  *           g                 observe only
  *   !k      the k-th allocation request counted from the start of this call fails
  * observation per step:
@@ -167,6 +170,40 @@ void run_case(char *rest)
 		int ret;
 		printf(" | ");
 		if (tok[0] == 'g') { observe(o, "g", 0, flags); continue; }
+		if (tok[0] == 'o' || tok[0] == 's') {
+			/* own-buffer source: the expected bytes are a slice of the current ones */
+			char *bang = strchr(tok, '!');
+			long long off = 0, ln = 0;
+			size_t cnt;
+			const char *own;
+			fault = -1;
+			if (bang) { *bang = 0; fault = strtol(bang + 1, NULL, 10); }
+			if (tok[0] == 'o') {
+				if (sscanf(tok + 1, "%lld,%lld", &off, &ln) != 2) { printf("BADOP"); break; }
+				cnt = (size_t)ln;
+			} else {
+				const unsigned char *z;
+				off = strtoll(tok + 1, NULL, 10);
+				if (off < 0 || (size_t)off > exp_n) { printf("BADOP"); break; }
+				z = (const unsigned char *)memchr(exp_b + off, 0, exp_n - (size_t)off);
+				cnt = z ? (size_t)(z - (exp_b + off)) : exp_n - (size_t)off;
+			}
+			/* only sources inside the contents, exactly equal to or disjoint from the destination */
+			if (off < 0 || (size_t)off + cnt > exp_n || (off != 0 && cnt > (size_t)off)) { printf("BADOP"); break; }
+			b = (unsigned char *)(malloc)(cnt ? cnt : 1);
+			memcpy(b, exp_b + off, cnt);
+			own = json_object_get_string(o) + off;
+			before = xa_live;
+			if (fault >= 0) xa_fail_at = xa_count + fault;
+			ret = (tok[0] == 'o') ? json_object_set_string_len(o, own, (int)ln)
+			                      : json_object_set_string(o, own);
+			xa_fail_at = -1;
+			if (ret == 1) set_expected(b, cnt);
+			(free)(b);
+			snprintf(rbuf, sizeof rbuf, "%d", ret);
+			observe(o, rbuf, xa_live - before, flags);
+			continue;
+		}
 		parse_arg(tok + 1, &hex, &len, &has_len, &fault);
 		b = unhex(hex, &n);
 		before = xa_live;
